@@ -307,36 +307,42 @@ def norm(s):
 
 def locate(src, path):
     """path: list of segments like 'impl EventGen for SvgElement', 'fn generate_events',
-    'struct Position'. Returns the Item (positions relative to src.text)."""
-    lo, hi = 0, len(src.text)
-    it = None
-    for seg in path:
+    'struct Position'. Returns the Item (positions relative to src.text). Several blocks with
+    the same header (e.g. two `impl TransformerContext`) are all searched; the complete path must
+    match exactly one item."""
+    def cands_for(seg, lo, hi):
         seg = norm(seg)
         if seg.startswith("impl"):
             kind, rest = "impl", seg[4:].strip()
         else:
             kind, _, rest = seg.partition(" ")
-        cands = []
+        out = []
         for x in items_in(src, lo, hi):
             if x.kind != kind:
                 continue
             if kind in ("impl",):
                 if norm(x.header).replace(" ", "") == rest.replace(" ", ""):
-                    cands.append(x)
+                    out.append(x)
             elif kind == "trait":
                 if x.name == rest or norm(x.header) == rest:
-                    cands.append(x)
+                    out.append(x)
             else:
                 if x.name == rest:
-                    cands.append(x)
-        # skip cfg(test) duplicates
-        cands = [c for c in cands if not any("cfg(test)" in a for a in c.attrs)]
-        if len(cands) != 1:
-            raise LookupError("segment %r matched %d items" % (seg, len(cands)))
-        it = cands[0]
-        if it.body_open is not None:
-            lo, hi = it.body_open + 1, it.end - 1
-    return it
+                    out.append(x)
+        return [c for c in out if not any("cfg(test)" in a for a in c.attrs)]
+
+    def walk(i, lo, hi):
+        res = []
+        for c in cands_for(path[i], lo, hi):
+            if i == len(path) - 1:
+                res.append(c)
+            elif c.body_open is not None:
+                res += walk(i + 1, c.body_open + 1, c.end - 1)
+        return res
+    found = walk(0, 0, len(src.text))
+    if len(found) != 1:
+        raise LookupError("path %r matched %d items" % (" :: ".join(path), len(found)))
+    return found[0]
 
 
 class FnParts:
